@@ -1582,7 +1582,46 @@ func framingVerdict(c framingCase) (fs []vf.Finding, status string) {
 	if !bytes.Equal(got, want) {
 		return []vf.Finding{vf.F(c.Struct+"."+c.Field, "buffer-format-string-differs-from-ms-cifs", "format %#02x, %d content bytes at %d of a %d-byte message: emitted %x, the reference encoding is %x", f, n, sl.Start, len(sl.Enc), got, want)}, "judged"
 	}
+	// The same assignment with this string empty: an empty buffer-format string is still a buffer-format string
+	// (format byte, zero length where the format has one, terminator where it has one). The data block must be
+	// the one above with the string's content taken out; a block from which the string's framing has gone as
+	// well - all of it or a part - is reported. Any other difference (a pad that moved, a count inside the block)
+	// is not judged here.
+	if fs := emptyStringVerdict(e, c, sl.Enc, at, len(want), f); fs != nil {
+		return fs, "judged"
+	}
 	return nil, "judged"
+}
+
+func emptyStringVerdict(e smbgen.Entry, c framingCase, full []byte, at, framed int, f uint8) []vf.Finding {
+	cmd := smbgen.New(e)
+	if err := smbgen.Restore(cmd, c.Fields); err != nil {
+		return nil
+	}
+	smbgen.AdoptWireFormats(cmd)
+	smbgen.SetContent(reflect.ValueOf(cmd).Elem().FieldByName(c.Field), []byte{})
+	smbgen.ApplyRelations(cmd)
+	var enc0 []byte
+	func() {
+		defer func() { recover() }()
+		enc0, _ = cmd.Marshal()
+	}()
+	if len(enc0) < 3 || len(full) < 3 {
+		return nil
+	}
+	ds, ds0 := 1+2*int(full[0])+2, 1+2*int(enc0[0])+2
+	if ds > at || ds0 > len(enc0) || at+framed > len(full) {
+		return nil
+	}
+	data0 := enc0[ds0:]
+	head, tail := full[ds:at], full[at+framed:]
+	ref0 := refString(f, nil)
+	for k := 0; k < len(ref0); k++ {
+		if bytes.Equal(data0, append(append(append([]byte{}, head...), ref0[:k]...), tail...)) {
+			return []vf.Finding{vf.F(c.Struct+"."+c.Field, "empty-string-emitted-without-its-framing", "format %#02x: with the string empty the data block is %x; the block with the content taken out is %x (the empty string is %x, %d of its %d bytes were emitted)", f, data0[:min(len(data0), 48)], append(append(append([]byte{}, head...), ref0...), tail...)[:min(len(head)+len(ref0)+len(tail), 48)], ref0, k, len(ref0))}
+		}
+	}
+	return nil
 }
 
 func TestStringFieldFraming(t *testing.T) {
